@@ -1243,10 +1243,14 @@ class noci(wave_function):
     ) -> List:
         """Calculate the half greens function with a single determinant in the NOCI trial."""
         green_up = (
-            walker_up.dot(jnp.linalg.inv(trial_up[:, : self.nelec[0]].T.dot(walker_up)))
+            walker_up.dot(
+                jnp.linalg.inv(trial_up[:, : self.nelec[0]].T.conj().dot(walker_up))
+            )
         ).T
         green_dn = (
-            walker_dn.dot(jnp.linalg.inv(trial_dn[:, : self.nelec[1]].T.dot(walker_dn)))
+            walker_dn.dot(
+                jnp.linalg.inv(trial_dn[:, : self.nelec[1]].T.conj().dot(walker_dn))
+            )
         ).T
         return [green_up, green_dn]
 
@@ -1431,12 +1435,12 @@ class noci(wave_function):
         rot_chol = [
             jnp.einsum(
                 "pi,gij->gpj",
-                trial_up.T,
+                trial_up.T.conj(),
                 ham_data["chol"].reshape(-1, self.norb, self.norb),
             ),
             jnp.einsum(
                 "pi,gij->gpj",
-                trial_dn.T,
+                trial_dn.T.conj(),
                 ham_data["chol"].reshape(-1, self.norb, self.norb),
             ),
         ]
